@@ -267,9 +267,12 @@ def check_no_cancelled_running(prev: View, cur: View):
     return fails
 
 
-def check_free_cores(v: View):
-    """C10: free_cores_mcpu == cores - sum(cores of un-ended attempts placed on it) for live instances; all free when inactive."""
+def check_free_cores(v: View, uncredited=None):
+    """C10: free_cores_mcpu == cores - sum(cores of un-ended attempts placed on it) for live instances; all free when inactive.
+    uncredited: {instance: mcpu} of attempts that ended while the instance was still pending (known finding: mark_job_complete /
+    unschedule_job credit the cores back only on an active instance although add_attempt debits a pending one)."""
     fails = []
+    uncredited = uncredited or {}
     free = {r['name']: r['free_cores_mcpu'] for r in v.S['instances_free_cores_mcpu']}
     used = collections.defaultdict(int)
     for a in v.S['attempts']:
@@ -283,6 +286,12 @@ def check_free_cores(v: View):
             want = inst['cores_mcpu'] - used.get(n, 0)
         else:
             want = inst['cores_mcpu']
+        if free.get(n) != want and uncredited.get(n) and inst['state'] in ('pending', 'active') and free.get(n) == want - uncredited[n]:
+            fails.append(('ended-attempt-on-pending-instance-not-credited',
+                          'free cores equal total cores minus the cores of attempts placed on the instance that have not ended',
+                          f'instance {n} ({inst["state"]}): free_cores_mcpu={free.get(n)}, recomputed {want}; {uncredited[n]} mcpu belong to '
+                          f'attempts that ended while the instance was pending'))
+            break
         if free.get(n) != want:
             fails.append(('free-cores', 'free cores equal total cores minus the cores of attempts placed on the instance that have not ended',
                           f'instance {n} ({inst["state"]}): free_cores_mcpu={free.get(n)}, recomputed {want} '
@@ -350,12 +359,17 @@ def by_date(v: View):
     return got
 
 
-def check_attempt_monotone(prev: View, cur: View):
+def check_attempt_monotone(prev: View, cur: View, timeout_instance=None):
     """C03 at op granularity: billed >= 0; bounded by end-start once ended; does not decrease unless end moved earlier or
     activation_timeout; start only moves earlier; (end, reason) change only to an earlier end once a reason is set."""
     fails = []
     for k, a in cur.attempts.items():
         bl = billed(a)
+        timeout_report = timeout_instance is not None and a['instance_name'] == timeout_instance
+        if timeout_report and bl != 0:
+            fails.append(('activation-timeout-bills', 'an activation timeout bills nothing',
+                          f'attempt {k} on {timeout_instance}, which never activated, is still billed {bl} ms: {a}'))
+            break
         if bl < 0:
             fails.append(('negative-billed', 'billed duration is never negative', f'attempt {k}: {a}'))
             break
@@ -369,11 +383,12 @@ def check_attempt_monotone(prev: View, cur: View):
         pb = billed(p)
         end_earlier = p['end_time'] is not None and a['end_time'] is not None and a['end_time'] < p['end_time']
         newly_ended = p['end_time'] is None and a['end_time'] is not None
-        if bl < pb and not (end_earlier or newly_ended or a['reason'] == 'activation_timeout'):
+        if bl < pb and not (end_earlier or newly_ended or a['reason'] == 'activation_timeout' or timeout_report):
             fails.append(('billed-decreased', 'billed duration never decreases unless the end is corrected earlier or on activation timeout',
                           f'attempt {k}: billed {pb} -> {bl}; before {p}; after {a}'))
             break
-        if p['start_time'] is not None and a['reason'] != 'activation_timeout' and (a['start_time'] is None or a['start_time'] > p['start_time']):
+        if p['start_time'] is not None and a['reason'] != 'activation_timeout' and not timeout_report and \
+                (a['start_time'] is None or a['start_time'] > p['start_time']):
             fails.append(('start-moved-later', 'the start time only ever moves earlier', f'attempt {k}: start {p["start_time"]} -> {a["start_time"]}'))
             break
         if p['reason'] is not None:
